@@ -1582,8 +1582,8 @@ class quantized_bits(base_quantizer.BaseQuantizer):  # pylint: disable=invalid-n
         "post_training_scale":
             # Since NumPy arrays are not directly JSON-serializable,
             # we convert them to lists.
-            (self.post_training_scale.tolist() if self.post_training_scale is
-             not None else None)
+            (np.asarray(self.post_training_scale).tolist()
+             if self.post_training_scale is not None else None)
     }
     return config
 
